@@ -21,6 +21,9 @@ def err(payload):
     return ("error", payload)
 
 
+ERRV = ("error",)
+
+
 class Pipe:
     __slots__ = ("data", "wclosed", "reader")
 
@@ -31,8 +34,9 @@ class Pipe:
 
 
 class TModel(ChanModel):
-    def __init__(self, caps, nworkers, npipes=0):
+    def __init__(self, caps, nworkers, npipes=0, nprocs=0):
         ChanModel.__init__(self, caps, nworkers)
+        self.procs = [{"exited": False, "waited": False, "waiter": None} for _ in range(nprocs)]
         self.now = 0
         self.timers = []   # [when, w, wid, kind]  kind: sleep | deadline | timeout
         self.pipes = [Pipe() for _ in range(npipes)]
@@ -81,6 +85,18 @@ class TModel(ChanModel):
             comps = self._write(w, op[1], op[2])
         elif k == "wclose":
             comps = self._wclose(w, op[1])
+        elif k == "pwait":
+            pr = self.procs[op[1]]
+            pr["waited"] = True
+            if pr["exited"]:
+                comps = [(w, ERRV)]          # exit code 3 under :x raises
+            else:
+                wid = self.nextwid
+                self.nextwid += 1
+                self.wait[w] = (wid, ("pwait", op[1]))
+                pr["waiter"] = (w, wid)
+        elif k == "write-bad":
+            comps = [(w, ERRV)]              # invalid data: raises at once, arms nothing
         else:
             raise ValueError(op)
         if deadline is not None:
@@ -154,6 +170,19 @@ class TModel(ChanModel):
         m._finish((w, m.wait[w][0], None), err(str(tag)), comps)
         return comps, m
 
+    def pexit(self, k):
+        """the child exits (code 3): only a still-live waiter of that process is resumed (with an error, :x)"""
+        m = self.clone()
+        m.depth = self.depth + 1
+        pr = m.procs[k]
+        pr["exited"] = True
+        comps = []
+        wt = pr["waiter"]
+        pr["waiter"] = None
+        if wt is not None and m.live_wid(wt[0], wt[1]):
+            m._finish((wt[0], wt[1], None), ERRV, comps)
+        return comps, m
+
     def next_timer(self):
         ts = [t[0] for t in self.timers if t[0] > self.now]
         return min(ts) if ts else None
@@ -187,4 +216,6 @@ class TModel(ChanModel):
                        None if pp.reader is None else (pp.reader[0], pp.reader[2], pp.reader[3], pp.reader[4],
                                                        self.live_wid(pp.reader[0], pp.reader[1])))
                       for pp in self.pipes)
-        return (base, timers, pipes)
+        procs = tuple((pr["exited"], pr["waited"], None if pr["waiter"] is None else (pr["waiter"][0], self.live_wid(*pr["waiter"])))
+                      for pr in self.procs)
+        return (base, timers, pipes, procs)
